@@ -39,6 +39,7 @@ def rules(model: Model, tier: str) -> List[RuleResult]:
     ac.ac3_create_graph(model, R3, files={JAC})
     _cache_key(model, K)
     _connect(model, G)
+    _connect_unconditional(model, G)
     refresh_consistency(model, G)
     _index_space(model, X)
     from ..rules import substitution as _subst
@@ -416,6 +417,46 @@ def _connect(model: Model, G: RuleResult):
                 G.bad(f, ifs[0], "cache branch re-evaluates / wrong polarity")
         else:
             G.bad(f, f.node, "%s does not test the cache validity before using the cached graph" % q)
+
+
+def _connect_unconditional(model: Model, G: RuleResult):
+    """connect_graph adds the zero-weight links on every path: the result then depends (with zero derivative) on every operator
+    parameter, so that differentiating a product w.r.t. a parameter it does not depend on gives zeros instead of an autograd error.
+    Also: the refresh (`__update_params`) rebuilds the argument list from an attribute that parameter substitution replaces."""
+    cg = model.func(JAC, "connect_graph")
+    out, params = cg.params()[:2]
+    rets = [r for r in own_nodes(cg.node) if isinstance(r, ast.Return)]
+    conditional = [r for r in rets if any(isinstance(a, (ast.If, ast.Try, ast.While, ast.For)) for a in ancestors(r))]
+    uses = lambda r: r.value is not None and any(isinstance(x, ast.Name) and x.id == params for x in ast.walk(r.value)) and \
+        any(isinstance(x, ast.Name) and x.id == out for x in ast.walk(r.value))
+    if len(rets) == 1 and not conditional and uses(rets[0]):
+        G.ok(cg.fq, "connect_graph has a single unconditional exit that involves every parameter")
+    else:
+        bad = (conditional + [r for r in rets if not uses(r)] + rets)[0] if rets else cg.node
+        G.bad(cg, bad, "connect_graph must link the result to the parameters on every path: an exit that returns the result untouched leaves some parameters "
+              "out of the graph (autograd then raises 'not used in the graph' / returns None instead of zeros)")
+    up = model.func(JAC, "_Jac.__update_params")
+    gp = model.func(JAC, "_Jac._getparamnames")
+    listed = set()
+    for c in ast.walk(gp.node):
+        if isinstance(c, ast.Constant) and isinstance(c.value, str) and c.value:
+            listed.add(c.value.split("[")[0])
+    calls = [c for c in own_nodes(up.node) if isinstance(c, ast.Call) and isinstance(c.func, ast.Attribute) and c.func.attr == "reconstruct_params"]
+    ok = False
+    why = "no reconstruct_params call"
+    for c in calls:
+        a0 = c.args[0] if c.args else next((k.value for k in c.keywords if k.arg == "tensor_params"), None)
+        if a0 is None:
+            why = "reconstruct_params is called without the tensor list (it falls back to the separator's construction-time tensors)"
+        elif isinstance(a0, ast.Attribute) and isinstance(a0.value, ast.Name) and a0.value.id == "self" and a0.attr in listed:
+            ok = True
+        else:
+            why = "the tensor list is `%s`, which is not one of the attributes named by _getparamnames (%s)" % (ast.unparse(a0), sorted(listed))
+    if ok:
+        G.ok(up.fq, "the refresh rebuilds the argument list from an attribute that uselinopparams / setparams replace (%s)" % sorted(listed))
+    else:
+        G.bad(up, up.node, "__update_params must rebuild the argument list from the substituted attribute: %s - after a parameter substitution the operator "
+              "would re-evaluate at the old tensors" % why)
 
 
 def _index_space(model: Model, X: RuleResult):
